@@ -11,6 +11,7 @@ use crate::world::*;
 pub struct C16 {
     guarded: bool,
     processed_wrappers: BTreeSet<(usize, String)>,
+    processed_rumors: BTreeSet<(usize, String)>,
     hit_active: bool,
 }
 
@@ -51,10 +52,23 @@ impl Oracle for C16 {
                 if is_process {
                     // same wrapper id again: same stored welcome, nothing new
                     let key = (node, pw.wrapper_id.to_hex());
-                    if !self.processed_wrappers.insert(key) {
+                    let again_same_wrapper = !self.processed_wrappers.insert(key);
+                    if again_same_wrapper {
                         w.probe("same_invitation_processed_again");
                         if w.views[node] != w.prev_view {
                             viols.push(("reprocessing-created-something", format!("n{node}: processing the invitation with wrapper {} a second time changed the client", &pw.wrapper_id.to_hex()[..8])));
+                        }
+                    }
+                    // the same invitation (same rumor) replayed under another wrapper id
+                    if let Some(rid) = pw.rumor.id {
+                        let again_same_rumor = !self.processed_rumors.insert((node, rid.to_hex()));
+                        if again_same_rumor && !again_same_wrapper {
+                            w.probe("same_invitation_under_new_wrapper_processed");
+                            if w.views[node] != w.prev_view {
+                                let before = w.prev_view.pending_welcomes.clone();
+                                let after = w.views[node].pending_welcomes.clone();
+                                viols.push(("replayed-invitation-created-something", format!("n{node}: the invitation {} delivered again under a new wrapper id changed the client (answer {}); pending welcomes {:?} -> {:?}", &rid.to_hex()[..8], rec.outcome.chars().take(60).collect::<String>(), before, after)));
+                            }
                         }
                     }
                 }
